@@ -35,6 +35,10 @@ func main() {
 	start := time.Now()
 	core.RepoRoot = *repo
 	core.KnownFuncsFile = filepath.Join(*verif, "checker", "known_funcs.txt")
+	if alt := os.Getenv("VERIF_KNOWN_FUNCS"); alt != "" {
+		core.KnownFuncsFile = alt // development: try a regenerated table without touching the committed one
+	}
+	knownOut := core.KnownFuncsFile
 	if *dumpFuncs {
 		core.KnownFuncsFile = ""
 		mods, err := core.LoadRepo(map[string]bool{"v2": true, "root": true})
@@ -45,7 +49,11 @@ func main() {
 		var lines []string
 		for name, m := range mods {
 			for _, p := range m.Roots {
+				callers := core.CallerTokens(p)
 				for _, f := range p.Syntax {
+					if strings.HasSuffix(m.Fset.File(f.Pos()).Name(), "_test.go") {
+						continue
+					}
 					for _, d := range f.Decls {
 						if gd, ok := d.(*ast.GenDecl); ok && (gd.Tok == token.CONST || gd.Tok == token.VAR) {
 							for _, sp := range gd.Specs {
@@ -79,17 +87,19 @@ func main() {
 						}
 						if fd, ok := d.(*ast.FuncDecl); ok {
 							shape := ""
+							fp := core.FuncFingerprint(p.TypesInfo, m.Path, fd)
 							if fn, ok := p.TypesInfo.Defs[fd.Name].(*types.Func); ok {
 								shape = core.SigShape(fn)
+								fp = append(fp, callers[fn]...)
 							}
-							lines = append(lines, core.FuncKey(name, m.Rel(p.PkgPath), fd)+"\t"+shape+"\t"+strings.Join(core.FuncFingerprint(p.TypesInfo, m.Path, fd), "\x1f"))
+							lines = append(lines, core.FuncKey(name, m.Rel(p.PkgPath), fd)+"\t"+shape+"\t"+strings.Join(fp, "\x1f"))
 						}
 					}
 				}
 			}
 		}
 		sort.Strings(lines)
-		if err := os.WriteFile(filepath.Join(*verif, "checker", "known_funcs.txt"), []byte("# functions of /repo at the time the rules were confirmed (restlicheck -dump-funcs); see core/fold.go\n"+strings.Join(lines, "\n")+"\n"), 0o644); err != nil {
+		if err := os.WriteFile(knownOut, []byte("# functions of /repo at the time the rules were confirmed (restlicheck -dump-funcs); see core/fold.go\n"+strings.Join(lines, "\n")+"\n"), 0o644); err != nil {
 			fmt.Fprintln(os.Stderr, err)
 			os.Exit(2)
 		}
@@ -217,6 +227,23 @@ func main() {
 	var rwg sync.WaitGroup
 	sem := make(chan struct{}, 16)
 	extra := map[string]interface{}{}
+	{
+		// what the loader normalised before any rule ran (helpers folded, renames recognised): part of what was analysed
+		norm := map[string][]string{}
+		for n, m := range mods {
+			if len(m.Folded) > 0 {
+				norm[n] = m.Folded
+				if os.Getenv("VERIF_DEBUG_FOLD") != "" {
+					for _, l := range m.Folded {
+						fmt.Fprintf(os.Stderr, "normalised[%s]: %s\n", n, l)
+					}
+				}
+			}
+		}
+		if len(norm) > 0 {
+			extra["normalised"] = norm
+		}
+	}
 	for _, r := range rules {
 		if r.Generated {
 			for _, g := range corp {
